@@ -5,6 +5,7 @@
 package mux
 
 import (
+	"maps"
 	"net/http"
 	"slices"
 	"strconv"
@@ -56,6 +57,7 @@ type (
 		size int
 		http.ResponseWriter
 		discard http.Header // 非空表示已经调用过 Write，与 GET 一样，之后对报头和状态码的修改不再生效。
+		sent    http.Header // 第一次调用 Write 时的报头，即 GET 请求实际发送的报头。
 	}
 )
 
@@ -211,7 +213,9 @@ func (r *Router[T]) serveContext(w http.ResponseWriter, req *http.Request, ctx *
 	if ok { // !ok 即为 405 或是 404 状态
 		r.cors.handle(node, w.Header(), req)
 		if req.Method == http.MethodHead {
-			w = &headResponse{ResponseWriter: w}
+			resp := &headResponse{ResponseWriter: w}
+			defer resp.finish() // 在处理函数 panic 时同样需要执行
+			w = resp
 		}
 	}
 	r.call(w, req, ctx, h)
@@ -366,6 +370,18 @@ func (resp *headResponse) Header() http.Header {
 	return resp.ResponseWriter.Header()
 }
 
+// 处理函数可能在 Write 之前就保存了 Header() 返回的对象，之后通过该对象所作的修改
+// 同样不能出现在响应中：结束时将报头恢复到第一次调用 Write 时的状态。
+func (resp *headResponse) finish() {
+	if resp.sent == nil {
+		return
+	}
+	h := resp.ResponseWriter.Header()
+	clear(h)
+	maps.Copy(h, resp.sent)
+	h.Set(header.ContentLength, strconv.Itoa(resp.size))
+}
+
 func (resp *headResponse) WriteHeader(code int) {
 	if resp.discard == nil {
 		resp.ResponseWriter.WriteHeader(code)
@@ -375,6 +391,7 @@ func (resp *headResponse) WriteHeader(code int) {
 func (resp *headResponse) Write(bs []byte) (int, error) {
 	if resp.discard == nil { // GET 在第一次 Write 时发送报头，HEAD 需要保持一致。
 		resp.discard = resp.ResponseWriter.Header().Clone()
+		resp.sent = resp.ResponseWriter.Header().Clone()
 	}
 	l := len(bs)
 	resp.size += l
